@@ -38,6 +38,20 @@ func VH_C08_remote(n int, rule int, rel int, kind int, pos int) {
 	start := nondetInt("start")
 	vassume(start >= 0 && start < n)
 	si := r.States.SyncInfo()
+	// a replica one view behind may be caught up by the timeouts themselves: they then carry a
+	// valid timeout certificate for v-1 (the ordinary catch-up path)
+	carried := false
+	if rel == 1 && nondetBool("timeouts-carry-tc-for-previous-view") {
+		var prev []hotstuff.TimeoutMsg
+		for s := 1; s <= q; s++ {
+			prev = append(prev, vhTimeoutMsg(w, s, s-1, v-1, si, false))
+		}
+		tc, err := w.Auth.CreateTimeoutCert(v-1, prev)
+		vassert(err == nil, "create-previous-tc")
+		si.SetTC(tc)
+		carried = true
+		vcover("caught-up-by-timeouts")
+	}
 	good := 0
 	emitted := false
 	step := 0
@@ -74,7 +88,7 @@ func VH_C08_remote(n int, rule int, rel int, kind int, pos int) {
 					vassert(err == nil, "aggregate-qc-verifies")
 				}
 			}
-			if rel == 0 {
+			if rel == 0 || carried {
 				vassert(r.States.View() == v+1, "replica-in-view-v-moves-to-v-plus-1")
 			}
 		}
